@@ -238,13 +238,10 @@ class Comparer(object):
         # read through it instead of a newly opened searcher (re-used segment readers must carry the current deletions)
         ll = getattr(self, "_longlived", None)
         if ll is not None and getattr(self, "_ll_fields", None) != sorted(m.fields):
-            # the schema changed (add_field / remove_field): a refreshed searcher may keep segment readers made with the
-            # schema object of their time - what refresh() promises across schema changes is not this property's subject
-            try:
-                ll.close()
-            except Exception:  # noqa
-                pass
-            ll = None
+            # the schema changed (add_field / remove_field): the long-lived searcher is refreshed across it like across any
+            # other commit (on the pinned tree a refreshed searcher kept segment readers made with the schema of their time:
+            # C03's subject, repaired in /repo dd50247; until then this searcher was re-opened here)
+            self.ctx.count("c07.refreshed_searcher_across_schema_change")
         self._ll_fields = sorted(m.fields)
         self._longlived = ix.searcher() if ll is None else ll.refresh()
         use_ll = ll is not None and random.Random("c07-ll:%r" % rng.random()).random() < 0.5
